@@ -2,6 +2,7 @@ import Driver.Util
 import Driver.CmdData
 import Driver.CmdExec
 import RQ.ModelF.Persist
+import RQ.ModelF.View
 /-! Driver commands for persistence (C14). -/
 namespace Driver
 open RQ.F
@@ -20,6 +21,7 @@ def cmdPersist (toks : List String) : Option String :=
       let r := persistOne RQ.Gen.persistSkipsOnLastEqual st.1.1 st.1.2 cur
       (r, st.2 ++ [match r.1 with | none => "0" | some v => toString v])
     some (joinSp (sts.foldl step ((none, none), [])).2)
+  | ["AUCFIELDS"] => some (joinSp srcAuctionFields)
   | "EXECRESUME" :: rest =>
     let (cs, r1) := takeN rest
     let cal := cs.map pN
